@@ -384,7 +384,7 @@ func (m *modelReader) refinePreconditions(spec *FuncSpec) (instances int, kept b
 	}
 	var pins, insts []string
 	pinned := map[string]bool{}
-	budget := 2500
+	budget := 800
 	se := &SpecEnv{fc: fc, pkg: fn.Pkg.Pkg}
 	var walk func(e Expr, hyps []Expr, depth int)
 	walk = func(e Expr, hyps []Expr, depth int) {
